@@ -91,6 +91,35 @@ class DecStr:
             return sym.be.cmp('eq', self.term, other.term)
         raise Unsupported('DecStr compared with ' + type(other).__name__)
 
+    def sym_format(self, sym, spec, st):
+        if spec == '':
+            return self
+        raise Unsupported('format spec on str(int)')
+
+    def m_zfill(self, sym, st, width):
+        if not isinstance(width, int):
+            raise Unsupported('zfill width')
+        return PaddedDigits(self.term, width, False)
+
+
+class PaddedDigits:
+    """str(n).zfill(width) for an integer term n >= 0 - exactly `width` digits when n < 10^width (the oracle has to assert
+    that) - optionally with trailing zeros stripped (rstrip('0'))."""
+    pytype = 'str'
+
+    def __init__(self, term, width, rstripped):
+        self.term, self.width, self.rstripped = term, width, rstripped
+
+    def m_rstrip(self, sym, st, chars=None):
+        if chars != '0':
+            raise Unsupported('rstrip argument')
+        return PaddedDigits(self.term, self.width, True)
+
+    def sym_format(self, sym, spec, st):
+        if spec == '':
+            return self
+        raise Unsupported('format spec on padded digits')
+
 
 class Opaque:
     """A value the kernel only passes around (message objects ...)."""
